@@ -175,6 +175,85 @@ def run_case(case, rng):
                 viol.append(("tensor_swap-dims", f"tensor_swap(dims={dims}, {(i, j)}) labelled {sw.dims}"))
         except Exception as e:
             viol.append(("tensor_swap-raises", f"tensor_swap(dims={dims}, {(i, j)}): {type(e).__name__}: {e}"[:200]))
+        # several pairs in one call (overlapping ones included) act one after the other
+        if k >= 2:
+            for npairs in (2, 3):
+                prs = [tuple(int(x) for x in rng.choice(2 * k, size=2, replace=False)) for _ in range(npairs)]
+                try:
+                    sw = qutip.tensor_swap(Mq, *prs)
+                    flat = dims + dims
+                    t = M.reshape(flat)
+                    for (a_, b_) in prs:
+                        t = np.swapaxes(t, a_, b_)
+                        flat[a_], flat[b_] = flat[b_], flat[a_]
+                    wsw = t.reshape(int(np.prod(flat[:k])), int(np.prod(flat[k:])))
+                    if sw.full().shape != wsw.shape or np.abs(sw.full() - wsw).max() > 1e-9:
+                        viol.append(("tensor_swap-pairs", f"tensor_swap(dims={dims}, {prs}) is not the succession of the swaps of tensor indices"))
+                    elif sw.dims != [flat[:k], flat[k:]] and not (all(d == 1 for d in flat[:k]) or all(d == 1 for d in flat[k:])):
+                        viol.append(("tensor_swap-pairs-dims", f"tensor_swap(dims={dims}, {prs}) labelled {sw.dims}"))
+                    one = Mq
+                    for pr in (prs if 1 not in dims else []):      # an intermediate all-1 side collapses to the scalar field (documented)
+                        one = qutip.tensor_swap(one, pr)
+                    if 1 in dims:
+                        one = sw
+                    if one.dims != sw.dims or np.abs(one.full() - sw.full()).max() > 1e-9:
+                        viol.append(("tensor_swap-pairs-sequence", f"tensor_swap(dims={dims}, {prs}) differs from the same swaps applied in separate calls"))
+                except Exception as e:
+                    viol.append(("tensor_swap-raises", f"tensor_swap(dims={dims}, {prs}): {type(e).__name__}: {e}"[:200]))
+            # product kets: swapping the factors' row indices reorders the factors
+            if k >= 3:
+                fs = [qutip.Qobj((np.arange(d) + 1 + 1j * (np.arange(d) % 2) + 10 * (i + 1)).reshape(-1, 1)) for i, d in enumerate(dims)]
+                prod = qutip.tensor(*fs)
+                got = qutip.tensor_swap(prod, (0, 1), (1, 2))
+                order = list(range(k))
+                order[0], order[1] = order[1], order[0]
+                order[1], order[2] = order[2], order[1]
+                want = qutip.tensor(*[fs[o] for o in order])
+                if got.full().shape != want.full().shape or np.abs(got.full() - want.full()).max() > 1e-9:
+                    viol.append(("tensor_swap-product-ket", f"tensor_swap(tensor of kets on {dims}, (0,1), (1,2)) is not the tensor of the reordered factors"))
+        # subsystem_apply: a map given as an operator (conjugation) or as a supermatrix acts on every masked subsystem
+        cand = [d for d in set(dims) if d > 1]
+        if cand and n <= 36:
+            d0 = int(rng.choice(sorted(cand)))
+            pos = [i for i, d in enumerate(dims) if d == d0]
+            chosen = [p_ for p_ in pos if rng.random() < 0.6] or [pos[0]]
+            smask = [i in chosen for i in range(k)]
+            U = rng.integers(-2, 3, size=(d0, d0)) + 1j * rng.integers(-2, 3, size=(d0, d0))
+            As = [rng.integers(-2, 3, size=(d0, d0)) + 1j * rng.integers(-1, 2, size=(d0, d0)) for _ in range(2)]
+            Bs = [rng.integers(-2, 3, size=(d0, d0)) + 1j * rng.integers(-1, 2, size=(d0, d0)) for _ in range(2)]
+            cp_map = bool(rng.random() < 0.5)
+            if cp_map:                      # completely positive: sum_j A_j rho A_j+
+                Bs = [a_.conj().T for a_ in As]
+            Sq = sum(qutip.sprepost(qutip.Qobj(a_), qutip.Qobj(b_)) for a_, b_ in zip(As, Bs))
+
+            def lift(op, pos_):
+                mats = [np.eye(dd) for dd in dims]
+                mats[pos_] = op
+                out_ = np.array([[1.0 + 0j]])
+                for m_ in mats:
+                    out_ = np.kron(out_, m_)
+                return out_
+            psi_np = (np.arange(n) + 1 + 1j * (np.arange(n) % 3)).reshape(-1, 1)
+            for sname, st_np, stq in (("dm", M, Mq), ("ket", psi_np @ psi_np.conj().T, qutip.Qobj(psi_np, dims=[dims, [1] * k]))):
+                wantU, wantS = st_np.astype(complex), st_np.astype(complex)
+                for p_ in chosen:
+                    Ul = lift(U, p_)
+                    wantU = Ul @ wantU @ Ul.conj().T
+                    wantS = sum(lift(a_, p_) @ wantS @ lift(b_, p_) for a_, b_ in zip(As, Bs))
+                for cname, chan, want in (("oper", qutip.Qobj(U), wantU), ("super", Sq, wantS)):
+                    for refflag in (False, True):
+                        if refflag and cname == "super" and not cp_map:
+                            continue            # the reference route goes through Kraus operators: completely positive maps only
+                        try:
+                            got = qutip.subsystem_apply(stq, chan, smask, reference=refflag)
+                        except Exception as e:
+                            viol.append(("subsystem_apply-raises", f"subsystem_apply({sname}, {cname}, dims={dims}, mask={smask}, reference={refflag}): {type(e).__name__}: {e}"[:200]))
+                            continue
+                        scale = 1 + np.abs(want).max()
+                        if got.full().shape != want.shape or np.abs(got.full() - want).max() > 1e-9 * scale:
+                            viol.append((f"subsystem_apply:{cname}", f"subsystem_apply({sname}, {cname} map, dims={dims}, mask={smask}, reference={refflag}) is not the map applied to the masked subsystems"))
+                        elif got.dims != [dims, dims]:
+                            viol.append(("subsystem_apply-dims", f"subsystem_apply(..., dims={dims}) labelled {got.dims}"))
         # tensor_contract of a pair (row index a, column index a): the partial trace over subsystem a
         a = case["swap"][0] % k
         tc = qutip.tensor_contract(Mq, (a, k + a))
